@@ -1,0 +1,15 @@
+//go:build verif
+
+// Contracts for offset-tracking writers (read as text by /verif's govc; comment-only).
+
+package io
+
+//@ # ghost: where the bytes written through this handle start in the file, and how many they are
+//@ ghost SpecOffset map[OffsetWriter]int64
+//@ ghost SpecLen map[OffsetWriter]int64
+//@ trusted func (o OffsetWriter) Offset() (r int64)
+//@   ensures r == SpecOffset[o] && r >= 0
+//@   modifies nothing
+//@ trusted func (o OffsetWriter) Len() (r int64)
+//@   ensures r == SpecLen[o] && r >= 0
+//@   modifies nothing
